@@ -317,7 +317,7 @@ static int run_serial(const case_t *c, workspace *w) {
     for (long i = 0; i < MAXOUT; i++) ser_out[i] = NANPAT;
     b = c->block;
     ser_ok = 0;
-    simomp_reset();
+    simomp_reset(); simomp_set_junk(0);
     crash_armed = 1;
     if (sigsetjmp(crash_jmp, 1) == 0) {
         simomp_count_begin();
@@ -343,7 +343,7 @@ static void run_parallel(const case_t *c, workspace *w, const trace_t *tr, int r
     for (long i = 0; i < explen; i++) out[i] = NANPAT;
     out[explen] = CANARY; out[explen + 1] = CANARY;
     DTWBlock b = c->block; DTWSettings s = c->set;
-    simomp_reset();
+    simomp_reset(); simomp_set_junk(1);
     simomp_set_seed(c->sched_seed);
     simomp_set_threads(c->T);
     simomp_set_loop_policy(c->loop_kind, c->loop_chunk);
